@@ -43,7 +43,12 @@ def run_config(run, exe, name, conf, invariants, env=None, workers=4, cap_tours=
     out = {"info": info, "g": g, "res": None, "tours": 0, "steps": 0}
     if not info["ok"] and not info["violated"]:
         raise ToolFailure("TLC failed on %s: %s" % (name, "\n".join(info["log"][-40:])))
-    tours = tlcgraph.build_tours(g, cap_tours=cap_tours)
+    # every transition is replayed once, up to a bound on the number of behaviours (the largest thorough-tier graphs would otherwise
+    # take hours to replay); a capped configuration is recorded as such
+    maxt = cap_tours or int(os.environ.get("VERIF_MAX_TOURS", "60000"))
+    tours = tlcgraph.build_tours(g, cap_tours=maxt)
+    if len(tours) >= maxt:
+        run.cov.setdefault("tours_capped", []).append({"config": name, "tours": len(tours), "transitions": len(g.edges)})
     sched = os.path.join(WORK, "tlc", "mu_%s.sched" % name)
     init = muconf.init_line(conf)
     steps = tlcgraph.write_schedule(sched, g, tours, init, obs_fmt=fmt_mu_obs)
